@@ -1795,6 +1795,38 @@ func (ex *Exec) varCandidates(st, entrySt *State, ls loopShape) []autoCand {
 			}
 		}
 	}
+	// local maps with pointer values whose entries the loop writes: every stored value is non-nil
+	var mvs []*types.Var
+	for o := range st.vars {
+		if v, ok := o.(*types.Var); ok {
+			mvs = append(mvs, v)
+		}
+	}
+	sort.Slice(mvs, func(i, j int) bool { return mvs[i].Pos() < mvs[j].Pos() })
+	for _, v := range mvs {
+		v := v
+		mt, isMap := v.Type().Underlying().(*types.Map)
+		if !isMap || ex.boxed[v] {
+			continue
+		}
+		if _, ptrVal := mt.Elem().Underlying().(*types.Pointer); !ptrVal {
+			continue
+		}
+		if _, mod := ls.mod.heaps[mapHeapBase(v.Type())+"$dom"]; !mod {
+			continue
+		}
+		mtype := v.Type()
+		needEntry = append(needEntry, autoCand{name: "mapvalsnonnil:" + v.Name(), at: func(s *State) *Term {
+			x, ok := s.vars[v]
+			if !ok {
+				return True
+			}
+			k := BVar("k", mapKeySort(mtype))
+			has := s.mapHas(x, k)
+			val := s.mapGetRaw(x, k)
+			return Forall([]*Term{k}, Implies(And(Neq(x.C[0], IntLit(0)), has), Neq(val.C[0], IntLit(0))), []*Term{has})
+		}})
+	}
 	// index variables: X[v] in the loop with v an integer variable modified by the loop
 	seen := map[string]bool{}
 	var scan func(n ast.Node)
